@@ -5,7 +5,7 @@
 #include <foonathan/memory/allocator_traits.hpp>
 #include <foonathan/memory/memory_pool.hpp>
 
-#include "../../repo/src/detail/free_list_utils.hpp"
+#include "listwalk.hpp"
 
 using namespace verif;
 
@@ -28,172 +28,6 @@ struct named_req
 };
 static std::vector<named_req> ALLOCS;
 
-template <class List>
-struct list_walk;
-
-// unordered intrusive list
-template <>
-struct list_walk<fm::detail::free_memory_list>
-{
-    template <class W>
-    static void check(W& w, int s, fm::detail::free_memory_list& l)
-    {
-        auto&       h   = w.h;
-        std::size_t n   = 0;
-        auto        ns  = l.node_size_;
-        for (char* cur = l.first_; cur; cur = fm::detail::list_get_next(cur))
-        {
-            auto c = reinterpret_cast<u8*>(cur);
-            if (!h.up.in_arena(c) || h.up.find_containing(h.up.offset_of(c), u32(ns)) < 0)
-            {
-                T().fail("M-freelist", "free-node-outside", fmt("free list node %p is not inside an owned block", (void*)cur));
-                return;
-            }
-            u32 off = h.up.offset_of(c);
-            if (h.up.blk[h.up.find_containing(off, u32(ns))].owner != u32(s))
-            {
-                T().fail("M-freelist", "free-node-foreign", fmt("free list node at offset %u lies in another allocator's block", off));
-                return;
-            }
-            if (h.overlaps_live(off, u32(ns)))
-            {
-                T().fail("M-freelist", "free-node-live", fmt("free list contains offset %u which is part of a live allocation", off));
-                return;
-            }
-            if (++n > 100000)
-            {
-                T().fail("M-freelist", "cycle", "free list does not terminate");
-                return;
-            }
-        }
-        if (n != l.capacity_)
-            T().fail("M-freelist", "count-mismatch", fmt("free list holds %zu nodes but capacity counter says %zu", n, l.capacity_));
-    }
-    static const int link_bytes = 8;
-};
-
-template <>
-struct list_walk<fm::detail::ordered_free_memory_list>
-{
-    template <class W>
-    static void check(W& w, int s, fm::detail::ordered_free_memory_list& l)
-    {
-        auto&       h    = w.h;
-        std::size_t n    = 0;
-        auto        ns   = l.node_size_;
-        char*       prev = l.begin_node();
-        char*       cur  = fm::detail::xor_list_get_other(prev, nullptr);
-        char*       end  = l.end_node();
-        char*       last = nullptr;
-        bool        cache_ok = false;
-        while (cur != end)
-        {
-            auto c = reinterpret_cast<u8*>(cur);
-            if (!h.up.in_arena(c) || h.up.find_containing(h.up.offset_of(c), u32(ns)) < 0)
-            {
-                T().fail("M-freelist", "free-node-outside", fmt("free list node %p is not inside an owned block", (void*)cur));
-                return;
-            }
-            u32 off = h.up.offset_of(c);
-            if (h.up.blk[h.up.find_containing(off, u32(ns))].owner != u32(s))
-            {
-                T().fail("M-freelist", "free-node-foreign", fmt("free list node at offset %u lies in another allocator's block", off));
-                return;
-            }
-            if (h.overlaps_live(off, u32(ns)))
-            {
-                T().fail("M-freelist", "free-node-live", fmt("free list contains offset %u which is part of a live allocation", off));
-                return;
-            }
-            if (last && !(last < cur))
-            {
-                T().fail("M-freelist", "unsorted", fmt("ordered free list is not sorted at offset %u", off));
-                return;
-            }
-            if (cur == l.last_dealloc_ && prev == l.last_dealloc_prev_)
-                cache_ok = true;
-            last = cur;
-            if (++n > 100000)
-            {
-                T().fail("M-freelist", "cycle", "free list does not terminate");
-                return;
-            }
-            fm::detail::xor_list_iter_next(cur, prev);
-        }
-        if (l.last_dealloc_ == end && prev == l.last_dealloc_prev_)
-            cache_ok = true;
-        if (n != l.capacity_)
-            T().fail("M-freelist", "count-mismatch", fmt("free list holds %zu nodes but capacity counter says %zu", n, l.capacity_));
-        (void)cache_ok;
-    }
-    static const int link_bytes = 8;
-};
-
-template <>
-struct list_walk<fm::detail::small_free_memory_list>
-{
-    template <class W>
-    static void check(W& w, int s, fm::detail::small_free_memory_list& l)
-    {
-        auto&       h  = w.h;
-        std::size_t n  = 0, chunks = 0;
-        auto        ns = l.node_size_;
-        for (auto c = l.base_.next; c != &l.base_; c = c->next)
-        {
-            auto cb = reinterpret_cast<u8*>(c);
-            if (!h.up.in_arena(cb))
-            {
-                T().fail("M-freelist", "chunk-outside", "chunk header outside upstream memory");
-                return;
-            }
-            if (++chunks > 10000)
-            {
-                T().fail("M-freelist", "cycle", "chunk list does not terminate");
-                return;
-            }
-            u8*         mem = cb + fm::detail::chunk_memory_offset;
-            std::size_t cnt = 0;
-            unsigned    idx = c->first_free;
-            while (idx != c->no_nodes)
-            {
-                if (idx > c->no_nodes)
-                {
-                    T().fail("M-freelist", "bad-index", "chunk free index out of range");
-                    return;
-                }
-                u8* node = mem + idx * ns;
-                u32 off  = h.up.offset_of(node);
-                int bi   = h.up.find_containing(off, u32(ns));
-                if (bi < 0 || h.up.blk[bi].owner != u32(s))
-                {
-                    T().fail("M-freelist", "free-node-outside", fmt("free node at offset %u not inside an owned block", off));
-                    return;
-                }
-                if (h.overlaps_live(off, u32(ns)))
-                {
-                    T().fail("M-freelist", "free-node-live", fmt("chunk free list contains offset %u which is part of a live allocation", off));
-                    return;
-                }
-                if (++cnt > 300)
-                {
-                    T().fail("M-freelist", "cycle", "chunk free list does not terminate");
-                    return;
-                }
-                idx = *node;
-            }
-            if (cnt != c->capacity)
-            {
-                T().fail("M-freelist", "count-mismatch", fmt("chunk holds %zu free nodes but its counter says %u", cnt, c->capacity));
-                return;
-            }
-            n += cnt;
-        }
-        if (n != l.capacity_)
-            T().fail("M-freelist", "count-mismatch", fmt("chunks hold %zu free nodes but capacity counter says %zu", n, l.capacity_));
-    }
-    static const int link_bytes = 1;
-};
-
 template <class PoolType, class Src>
 struct pool_policy
 {
@@ -210,6 +44,10 @@ struct pool_policy
     static void construct(void* where)
     {
         ::new (where) object(PP.ns, PP.bs);
+    }
+    static bool fills_new()
+    {
+        return true;
     }
     static bool has_leak_check()
     {
